@@ -131,6 +131,7 @@ def run_case(ctx, case):
             tx.listen = False
             tx.mac = mac
             nq = case["queue"]
+            fitted_once = False
             for j in range(nq):
                 name = name_expected(case["name"])
                 if j == 0:  # configured once per session
@@ -145,12 +146,25 @@ def run_case(ctx, case):
                         pass
                 else:
                     tx.pa_level = pa_j
-                svcs, descr = build_lib_services(F, case, rng, j, tx.len_available())
+                if j == 0 or case["seed"] % 2:
+                    svcs, descr = build_lib_services(F, case, rng, j, tx.len_available())
+                    adv_list = [F.chunk(s.buffer) if not isinstance(s, bytes) else F.chunk(s, 0xFF) for s in svcs]
+                # (every other case advertises the very same list of chunk objects again)
+                snapshot = [bytes(c) for c in adv_list]
                 try:
-                    tx.advertise([F.chunk(s.buffer) if not isinstance(s, bytes) else F.chunk(s, 0xFF) for s in svcs])
+                    tx.advertise(adv_list)
                 except ValueError:
+                    if j and not case["seed"] % 2 and fitted_once:
+                        ctx.violation("advertise-again-raises", "advertising the same list of chunks a second time raised "
+                                      "ValueError although it fitted the first time", case)
+                        return
                     ctx.count("advertise_too_long_skipped")
                     continue
+                fitted_once = True
+                if [bytes(c) for c in adv_list] != snapshot:
+                    ctx.violation("advertise-modified-chunks", "advertise() changed the caller's chunk objects: %r -> %r"
+                                  % ([c.hex() for c in snapshot], [bytes(c).hex() for c in adv_list]), case)
+                    return
                 node.idle(600000)
                 expected.append((mac, name, pa_j if tx.show_pa_level else None, descr))
         elif kind == "ref":
